@@ -5,7 +5,9 @@
 //! order (the running task first if it is still enabled, then ascending id).
 //! Choosing another task while the running one is enabled costs one
 //! preemption; when the budget is spent only the running task is offered.
-//! Switches away from a blocked / finished task are free.
+//! Switches away from a blocked / finished task are free. A task that yields
+//! (`yield_now`: a ticker between two periods) is offered last, and resuming
+//! it while another task could run is charged like a preemption.
 use shuttle::scheduler::{Schedule, Scheduler, Task, TaskId};
 use std::sync::{Arc, Mutex};
 
@@ -28,6 +30,7 @@ pub struct DfsState {
   pub exhausted: bool,
   pub diverged: Option<String>,
   pub yields: u64,
+  pub yield_owed: Option<TaskId>,
   // statistics
   pub executions: u64,
   pub states: u64,
@@ -101,6 +104,7 @@ impl Scheduler for BoundedDfs {
     s.started = true;
     s.trace.clear();
     s.preemptions = 0;
+    s.yield_owed = None;
     Some(Schedule::new(0))
   }
 
@@ -116,21 +120,50 @@ impl Scheduler for BoundedDfs {
     if is_yielding {
       s.yields += 1;
     }
+    // a yield that found nobody else runnable (the others were still blocked on
+    // something the yielding task was about to release) is honoured at the
+    // task's next scheduling point at which somebody else can run
+    let mut is_yielding = is_yielding;
+    if !is_yielding {
+      if let (Some(owed), Some(c)) = (s.yield_owed, current) {
+        if owed == c && opts.len() > 1 && opts.contains(&c) {
+          is_yielding = true;
+          s.yield_owed = None;
+        } else if owed != c {
+          s.yield_owed = None;
+        }
+      }
+    } else if opts.len() == 1 && current.map_or(false, |c| opts.contains(&c)) {
+      s.yield_owed = current;
+    } else {
+      s.yield_owed = None;
+    }
     let cur_on = !is_yielding && current.map_or(false, |c| opts.contains(&c));
+    let mut yielder_last = false;
     if cur_on {
       let c = current.unwrap();
       opts.retain(|t| *t != c);
       opts.insert(0, c);
     } else if is_yielding {
-      // a yielding task goes last
+      // a yielding task (a ticker waiting for its next period) goes last;
+      // resuming it although somebody else could run costs one unit of the
+      // budget, like a preemption, which keeps the tree of a never-ending
+      // ticker finite
       if let Some(c) = current {
         if opts.len() > 1 && opts.contains(&c) {
           opts.retain(|t| *t != c);
           opts.push(c);
+          yielder_last = true;
         }
       }
     }
-    let n = if cur_on && s.preemptions >= s.bound { 1 } else { opts.len() };
+    let n = if cur_on && s.preemptions >= s.bound {
+      1
+    } else if yielder_last && s.preemptions >= s.bound {
+      opts.len() - 1
+    } else {
+      opts.len()
+    };
     let pos = s.trace.len();
     let mut i = if pos < s.prefix.len() { s.prefix[pos] as usize } else { 0 };
     if pos < s.prefix_n.len() && s.prefix_n[pos] as usize != n && s.diverged.is_none() {
@@ -145,8 +178,11 @@ impl Scheduler for BoundedDfs {
       }
       i = 0;
     }
-    if cur_on && i > 0 {
+    if (cur_on && i > 0) || (yielder_last && i + 1 == opts.len()) {
       s.preemptions += 1;
+    }
+    if s.single && std::env::var("SCHED_DEBUG").is_ok() {
+      eprintln!("  step {pos}: runnable {opts:?} current {current:?} yielding {is_yielding} -> {:?} (n={n})", opts[i]);
     }
     s.trace.push(Pt { chosen: i as u32, n: n as u32 });
     Some(opts[i])
